@@ -706,6 +706,100 @@ func runC12(c *core.Ctx, o Options) {
 			ob.Ok("%s", an.SortedKeys(all)[0])
 		}
 	}
+	// ---- (i) every package qualifier the generator can emit is imported: the templates and the Go types of the type mapping
+	// mention packages (fix., messages., time.); makeFile adds an import for a qualifier exactly when the rendered text mentions it
+	if mf := c.Func("generator", "Generator.makeFile"); c.Anchor("file assembler", mf != nil, "Generator.makeFile", posOf(mf)) {
+		quals := map[string]string{}
+		qre := regexp.MustCompile(`\b([a-z][a-z0-9]*)\.[A-Z]`)
+		// identifiers in front of a dot that are package names (of this module or of the standard library), not variables
+		isPkgName := map[string]bool{"fix": true, "messages": true, "utils": true, "session": true, "encoding": true, "simplefixgo": true,
+			"time": true, "fmt": true, "strconv": true, "strings": true, "bytes": true, "errors": true, "sort": true, "math": true, "context": true, "sync": true, "io": true, "os": true}
+		for name, text := range tvars {
+			for _, m := range qre.FindAllStringSubmatch(text, -1) {
+				if isPkgName[m[1]] {
+					quals[m[1]] = "template " + name
+				}
+			}
+		}
+		for _, fn := range pkgFuncs(gen) {
+			if fn.Name() != "init" {
+				continue
+			}
+			an.AllInstrs(fn, func(in ssa.Instruction) {
+				if mu, ok := in.(*ssa.MapUpdate); ok {
+					if v, isS := an.ConstString(mu.Value); isS {
+						for _, m := range qre.FindAllStringSubmatch(v, -1) {
+							if isPkgName[m[1]] {
+								quals[m[1]] = "Go type " + v + " of the type mapping"
+							}
+						}
+					}
+				}
+			})
+		}
+		tested := map[string]bool{}
+		an.AllInstrs(mf, func(in ssa.Instruction) {
+			call, ok := in.(*ssa.Call)
+			if !ok || !an.CalleeIs(&call.Call, "strings", "Contains") {
+				return
+			}
+			if needle, isS := an.ConstString(call.Call.Args[1]); isS && strings.HasSuffix(needle, ".") {
+				q := strings.TrimSuffix(needle, ".")
+				// the import appended under this test names that package
+				okImp := false
+				an.AllInstrs(mf, func(i2 ssa.Instruction) {
+					if k, isK := i2.(*ssa.Store); isK {
+						if v, isS := an.ConstString(k.Val); isS && (strings.HasSuffix(v, "/"+q+`"`) || v == `"`+q+`"`) {
+							okImp = true
+						}
+					}
+				})
+				if okImp {
+					tested[q] = true
+				}
+			}
+		})
+		for _, q := range an.SortedKeys(quals) {
+			c.Check(tested[q], "i", "makeFile", "package "+q+" is imported when the generated text mentions it", mf.Pos(), `strings.Contains(data, "`+q+`.") ⇒ import`,
+				"generated code can mention "+q+". ("+quals[q]+") but makeFile never adds an import for it: with a schema or type mapping that makes it appear, the emitted package does not compile")
+		}
+		c.Check(len(quals) >= 2, "i", "", "package qualifiers found in the templates", token.NoPos, fmt.Sprint(len(quals)), "no package qualifier found in the templates (anchor moved)")
+	}
+	// ---- (b′) a nested component is instantiated through its argument-free maker: the exported constructor New<Name> takes the
+	// component's required members as arguments, so a call without arguments stops compiling as soon as a schema has one
+	{
+		nComp := 0
+		cre := regexp.MustCompile(`([A-Za-z]+)\{\{\.Name\}\}\(\)\.Component`)
+		for _, name := range an.SortedKeys(tvars) {
+			for _, m := range cre.FindAllStringSubmatch(tvars[name], -1) {
+				nComp++
+				c.Check(m[1] == "make", "b", name, "nested components are built with make<Name>()", token.NoPos, "make{{.Name}}().Component",
+					"template "+name+" instantiates a nested component with "+m[1]+"{{.Name}}() — the exported constructor, whose parameters are the component's required members: for a schema where a nested component has a required member the emitted package does not compile")
+			}
+		}
+		c.Check(nComp >= 1, "b", "", "nested-component instantiation found in the templates", token.NoPos, fmt.Sprint(nComp), "no template instantiates a nested component (anchor moved)")
+	}
+	// ---- (c″) which definition of a group name wins is fixed: appendGroup records every definition it is given (the last one
+	// wins; the reference package was generated that way — see finding D14)
+	if ag := c.Func("generator", "Generator.appendGroup"); c.Anchor("group table writer", ag != nil, "Generator.appendGroup", posOf(ag)) {
+		var upd *ssa.MapUpdate
+		an.AllInstrs(ag, func(in ssa.Instruction) {
+			if mu, ok := in.(*ssa.MapUpdate); ok {
+				upd = mu
+			}
+		})
+		okAll := upd != nil
+		if upd != nil {
+			ps, _ := an.EnumPaths(ag, 64)
+			for _, p := range ps {
+				if p.Return != nil && !p.Passes(upd) {
+					okAll = false
+				}
+			}
+		}
+		c.Check(okAll, "c″", "appendGroup", "every definition of a group is recorded (the last one wins)", ag.Pos(), "g.groups[name] = group on every path",
+			"appendGroup does not record a definition on every path: for a group name defined more than once the generated type gets another definition's members than before, and the shipped package no longer corresponds to the generator")
+	}
 	// ---- (e) package name
 	ex := c.Func("generator", "Generator.Execute")
 	if c.Anchor("Execute", ex != nil, "Generator.Execute", posOf(ex)) {
@@ -854,7 +948,8 @@ func runC12(c *core.Ctx, o Options) {
 	// ---- (g) type table
 	checkTypeTable(c, "g", gpkg.Types)
 	c.Explanation += " (d) also: no function of the generator writes a package-level variable with something computed from the Generator (a memo keyed by a name outlives the schema and the type mapping; a memo of a function of the key alone, such as parsed templates by their text, is accepted). (e) also: on the way to Generator.write no strings.* transformation is applied to a value built by filepath.* or derived from Execute's parameter (interprocedural backward slice inside the package). (g) also: every <base>+\"Grp\" / <base>+\"Entry\" is built from the group name by one and the same transformation."
-	c.RuleMin = map[string]int{"a": 15, "b": 3, "c": 3, "c′": 3, "c″": 3, "d": 8, "e": 3, "f": 3, "g": 7, "h": 121}
+	c.Explanation += " (i) every package qualifier the templates or the type mapping can emit (fix., messages., time.) has its strings.Contains test and import in makeFile. (b) also: a nested component is instantiated with make<Name>(), never with the exported constructor whose parameters depend on the schema. (c″) also: appendGroup records every definition on every path (last one wins)."
+	c.RuleMin = map[string]int{"a": 15, "b": 5, "c": 3, "c′": 3, "c″": 4, "d": 8, "e": 3, "f": 3, "g": 7, "h": 121, "i": 4}
 	c.MinObl = 150
 }
 
